@@ -106,16 +106,9 @@ theorem splitCommaAll_mem (v : List Char) : ∀ x ∈ splitCommaAll v, ',' ∉ x
 
 /-! ## %q and strconv.Unquote on the modelled fragment -/
 
-/-- characters a parsed value can consist of -/
-def ValChar (c : Char) : Prop := plainValChar c = true ∨ c = '"' ∨ c = '\\'
+/-- characters a parsed value can consist of: anything but a newline -/
+def ValChar (c : Char) : Prop := c ≠ '\n'
 def ValChars (v : List Char) : Prop := ∀ c ∈ v, ValChar c
-
-theorem plain_ne {c : Char} (h : plainValChar c = true) : c ≠ '"' ∧ c ≠ '\\' ∧ c ≠ '\n' := by
-  unfold plainValChar at h
-  simp only [Bool.and_eq_true, decide_eq_true_eq, bne_iff_ne, ne_eq] at h
-  refine ⟨h.1.2, h.2, ?_⟩
-  rintro rfl
-  exact absurd h.1.1.1 (by decide)
 
 theorem ValChars.tail {c : Char} {v} (h : ValChars (c :: v)) : ValChars v := fun d hd => h d (by simp [hd])
 theorem ValChars.head {c : Char} {v} (h : ValChars (c :: v)) : ValChar c := h c (by simp)
@@ -155,17 +148,15 @@ theorem unq_ok_chars : ∀ (b : List Char) (esc : Bool) (v : List Char), unq esc
       · exact ih true v h
       · split at h
         · simp at h
-        · split at h
-          · rename_i hp
-            obtain ⟨v', hv, rfl⟩ := Unq.cons_ok h
-            exact ValChars.cons (Or.inl hp) (ih false v' hv)
-          · simp at h
+        · rename_i hp
+          obtain ⟨v', hv, rfl⟩ := Unq.cons_ok h
+          exact ValChars.cons hp (ih false v' hv)
     · rw [unq] at h
       split at h
       · rename_i hd
         obtain ⟨v', hv, rfl⟩ := Unq.cons_ok h
         refine ValChars.cons ?_ (ih false v' hv)
-        rcases hd with h | h <;> simp [ValChar, h]
+        rcases hd with h | h <;> (rw [h]; unfold ValChar; decide)
       · simp at h
 
 theorem unquoteBody_ok_chars {b v : List Char} (h : unquoteBody b = .ok v) : ValChars v :=
@@ -187,14 +178,10 @@ theorem unquoteBody_quoteChars : ∀ v, ValChars v → unquoteBody (quoteChars v
       rw [unq]
       simp only [hc, ↓reduceIte, ihr, Unq.cons]
     · rename_i hc
-      have hp : plainValChar c = true := by
-        rcases h.head with hp | hp | hp
-        · exact hp
-        · exact absurd (Or.inl hp) hc
-        · exact absurd (Or.inr hp) hc
-      have := plain_ne hp
+      have hnl : c ≠ '\n' := h.head
+      simp only [not_or] at hc
       rw [unq]
-      simp only [this.2.1, this.2.2, ↓reduceIte, hp, ihr, Unq.cons]
+      simp only [hc.2, hnl, ↓reduceIte, ihr, Unq.cons]
 
 theorem scanQuoted_quoteChars (rest : List Char) : ∀ v, ValChars v →
     scanQuoted (quoteChars v ++ '"' :: rest) = some (quoteChars v, rest) := by
@@ -348,7 +335,7 @@ structure WFTag (t : Tag) : Prop where
 
 def WFTags (ts : Tags) : Prop := ∀ t ∈ ts, WFTag t
 
-theorem valChar_comma : ValChar ',' := Or.inl (by decide)
+theorem valChar_comma : ValChar ',' := by unfold ValChar; decide
 
 theorem joinComma_valChars : ∀ (l : List (List Char)), (∀ x ∈ l, ValChars x) → ValChars (joinComma l) := by
   intro l
@@ -694,27 +681,16 @@ theorem itoa_chars (v : Int) : ∀ c ∈ (itoa v).toList, c.isDigit = true ∨ c
   · rw [itoa_nonneg (by omega), String.toList_ofList] at hc
     exact Or.inl (Nat.isDigit_of_mem_toDigits (by decide) (by decide) hc)
 
-theorem isDigit_plain {c : Char} (h : c.isDigit = true) : plainValChar c = true ∧ c ≠ ',' := by
-  unfold Char.isDigit at h
-  simp only [ge_iff_le, Bool.and_eq_true, decide_eq_true_eq] at h
-  have h1 : 48 ≤ c.toNat := by
-    have := h.1; rwa [UInt32.le_iff_toNat_le] at this
-  have h2 : c.toNat ≤ 57 := by
-    have := h.2; rwa [UInt32.le_iff_toNat_le] at this
-  refine ⟨?_, ?_⟩
-  · unfold plainValChar
-    simp only [Bool.and_eq_true, decide_eq_true_eq, bne_iff_ne, ne_eq]
-    refine ⟨⟨⟨by omega, by omega⟩, ?_⟩, ?_⟩
-    · rintro rfl; revert h1; decide
-    · rintro rfl; revert h2; decide
-  · rintro rfl; revert h1; decide
+theorem isDigit_plain {c : Char} (h : c.isDigit = true) : ValChar c ∧ c ≠ ',' := by
+  unfold ValChar
+  constructor <;> (rintro rfl; revert h; decide)
 
 theorem itoa_wf (v : Int) : ValChars (itoa v).toList ∧ ',' ∉ (itoa v).toList := by
   refine ⟨?_, ?_⟩
   · intro c hc
     rcases itoa_chars v c hc with h | rfl
-    · exact Or.inl (isDigit_plain h).1
-    · exact Or.inl (by decide)
+    · exact (isDigit_plain h).1
+    · unfold ValChar; decide
   · intro hc
     rcases itoa_chars v _ hc with h | h
     · exact (isDigit_plain h).2 rfl
@@ -845,7 +821,7 @@ theorem wf_plencTag_dash : WFTag (plencTag "-") := by
     intro c hc
     simp only [List.mem_cons, List.not_mem_nil, or_false] at hc
     subst hc
-    exact Or.inl (by decide)
+    unfold ValChar; decide
   · intro o ho; simp [plencTag] at ho
 
 theorem wf_plencTag_itoa (v : Int) : WFTag (plencTag (itoa v)) := by
